@@ -100,6 +100,15 @@ def build(rng, tier, seed=0):
             c.pop("expect", None)
         w["reuse"] = w["hashseed"] == seeds[-1]
         worlds.append(w)
+    # object sections outside the grammar of the spec (a name declared again, nested lists): the parsed problem must
+    # survive the round trip like any other (the exporter writes the table in the normal form)
+    orng = random.Random(seed * 7919 + 133)
+    for w in C5.object_section_worlds(seed, tier):
+        acc = [c for c in w["cases"] if c["expect"] != "raised"]
+        w["cases"] = [{"text": c["text"], "kind": c["kind"], "klass": None, "nontrivial": True}
+                      for c in orng.sample(acc, min(6, len(acc)))]
+        if w["cases"]:
+            worlds.append(w)
     fw, n_total, n_skipped = C5.fixture_worlds(tier)
     for w in fw:
         for c in w["cases"]:
@@ -206,12 +215,21 @@ def run(args):
                      "fixture_problems_shipped": n_total, "fixture_problems_left_to_thorough_tier": n_skipped}
     cov["repr_hypothesis_checked_values"] = sum(len(r.get("reprs", {})) for res in results if "results" in res for r in res["results"])
     cov["theorem_hypotheses_checked"] = hypotheses_report(results)
+    cov["python_hash_seeds"] = {"default": args.seed % 5, "several_repeats_worlds": sorted({w["hashseed"] for w in worlds if "hashseed" in w})}
+    cov["worlds_run_with_one_exporter_object_and_one_path"] = sum(1 for w in worlds if w.get("reuse"))
     cov["exhaustive"] = False
     cov["rule"] = ("valid problems of C05's generator over pddlgen domains widened with binary/ternary functions (all object list styles, "
                    "constants, subtypes, repeated arguments, zero-arity atoms, all numeral forms, numeric goals; every second domain with type / "
                    "constant / predicate / function / object names that contain '-' and '_' and share prefixes, and a domain name with separators), hand-written corner cases "
                    "(empty sections, goal constants beyond 4 decimals, plain-decimal values whose repr is in exponent form, inf), and the shipped problem files each against its domain "
-                   "(quick: files <= 2100 bytes); two export/parse rounds each. Non-trivial: >= 2 init/goal items; distinct by input hash.")
+                   "(quick: files <= 2100 bytes); two export/parse rounds each. Initial fluents that repeat TWO OR THREE different arguments "
+                   "(functions of arity 4-6; written the way the library prints them = inside safe_repeats, arbitrary interleavings, every arrangement "
+                   "of one shape), each problem under several PYTHONHASHSEEDs (quick 3, thorough 6) - the exported TEXT of every fluent is compared "
+                   "with the model's (Counter's first-occurrence order, state_representation's re-expansion). Process level: a five-problem "
+                   "sequence (long, short, same size with other content, empty, long again), every third generated world and the several-repeats "
+                   "worlds of the last hash seed are run with ONE ProblemExporter object, ONE source path and ONE export path for all their problems. "
+                   "Problems whose object section is outside the grammar of the spec (a name declared again, lists nested to depth 3). "
+                   "Non-trivial: >= 2 init/goal items; distinct by input hash.")
     cov["samples"] = [{"kind": c["input"]["world"]["cases"][0]["kind"],
                        "text": (c["input"]["world"]["cases"][0].get("text") or c["input"]["world"]["cases"][0].get("path"))[:300]}
                       for c in (cases[:2] + cases[len(cases) // 2:len(cases) // 2 + 2] + cases[-1:])]
